@@ -71,6 +71,11 @@ def callee_crate(term):
     return c["crate"]
 
 
+def is_u8_slice_ref(ty):
+    """`&[u8]` / `&'a [u8]` (any lifetime spelling)."""
+    return ty.get("k") == "ref" and not ty.get("mut") and ty["ty"].get("k") == "slice" and ty["ty"]["elem"].get("s") == "u8"
+
+
 def strip_generics(path):
     """`a::B::<H>::f` -> `a::B::f` (table keys must not depend on generic spelling)."""
     out = []
